@@ -248,10 +248,10 @@ func (g *c01Gen) route(d int, expr string, v c01Val) (string, []c01Seg) {
 	}
 }
 
-const c01NSources = 23
+const c01NSources = 25
 
 var c01SourceNames = []string{"ctx-var", "dq-literal", "bq-literal", "struct-field", "ptr-struct-field", "nested-struct-field", "map-element", "map-iface-element",
-	"strings-element", "ifaces-element", "helper-string", "helper-iface", "raw()", "html-var", "htmler-var", "helper-html", "reflect-value-of-string", "stringer-var", "named-string-with-String-method", "time-zone-name", "nil-pointer-whose-String-expects-nil", "nil-pointer-whose-HTML-expects-nil", "named-string-type-without-methods"}
+	"strings-element", "ifaces-element", "helper-string", "helper-iface", "raw()", "html-var", "htmler-var", "helper-html", "reflect-value-of-string", "stringer-var", "named-string-with-String-method", "time-zone-name", "nil-pointer-whose-String-expects-nil", "nil-pointer-whose-HTML-expects-nil", "named-string-type-without-methods", "reflect-value-of-html", "wrapper-of-string-after-wrapper-of-html"}
 
 // source sets up the context for payload p and returns the initial expression.
 func c01Source(k int, p string, ctx *plush.Context) (expr string, v c01Val, ok bool) {
@@ -336,14 +336,28 @@ func c01Source(k int, p string, ctx *plush.Context) (expr string, v c01Val, ok b
 		c01NilText = p
 		ctx.Set("nph", (*c01NilSafeHTML)(nil))
 		return "nph", c01Val{s: p, trusted: true}, true
-	default:
+	case 22:
 		// type Role string: a string like any other
 		ctx.Set("nrl", c01Role(p))
 		return "nrl", c01Val{s: p}, true
+	case 23:
+		// one wrapper type, another content: what is inside decides, each time
+		ctx.Set("rvh", reflect.ValueOf(template.HTML(p)))
+		return "rvh", c01Val{s: p, trusted: true}, true
+	default:
+		// a wrapper of the caller's own: its type has been seen holding trusted HTML just before
+		_, _ = plush.Render("<%= w %>", plush.NewContextWith(map[string]interface{}{"w": c01Wrap{template.HTML("<i>")}}))
+		ctx.Set("wrp", c01Wrap{p})
+		return "wrp", c01Val{s: p}, true
 	}
 }
 
 type c01Role string
+
+// c01Wrap holds anything; Interface() hands it out.
+type c01Wrap struct{ v interface{} }
+
+func (w c01Wrap) Interface() interface{} { return w.v }
 
 // c01NilText is what the nil receivers below print (the workload runs in one goroutine).
 var c01NilText string
